@@ -470,9 +470,24 @@ def _foreign_flag_writes(db: ProgramDB, ev_fns: Set[str]) -> List[Instance]:
                             reset_self.add(t.attr)
                         else:
                             reset_foreign.setdefault(m.cls.name, set()).add(t.attr)
+    # the block API (`with query:` / symbolic_mode(query)) is reachable from evaluation only through symbolic_mode(...); the
+    # entries call it without a query (to switch the mode off), so __enter__/__exit__ of an expression do not run then
+    from ..facts import resolve_call_target as _rct
+    block_api_runs_in_evaluation = False
+    for q in sorted(ev_fns):
+        f = db.functions[q]
+        if f.qualname in ("symbolic:symbolic_mode", "symbolic:rule_mode"):
+            continue
+        for c in own_calls(f):
+            t = _rct(db, f, c)
+            if isinstance(t, FuncInfo) and t.qualname in ("symbolic:symbolic_mode", "symbolic:rule_mode"):
+                if c.args or any(k.arg == "query" for k in c.keywords):
+                    block_api_runs_in_evaluation = True
     for q in sorted(ev_fns):
         f = db.functions[q]
         if f.cls is None or not f.cls.is_subclass_of(se) or f.name in ("_reset_only_my_cache_", "_reset_cache_"):
+            continue
+        if f.name in ("__enter__", "__exit__") and not block_api_runs_in_evaluation:
             continue
         for n in own_nodes(f.node):
             if not isinstance(n, ast.Assign) or not isinstance(n.value, ast.Constant) or n.value.value is None:
